@@ -334,7 +334,7 @@ Proof.
       unfold bindM at 1. rewrite fixup_list'. cbn [x_disabled pend upd evs nchecks].
       unfold bindM at 1.
       match goal with |- context [eval_rules c Never inp ?x (s_rules sc) false ?st] =>
-        destruct (eval_rules_pass1 c inp (s_rules sc) D m [] st Hwr) as [k2 [ok [reps [E2 Hok]]]]; rewrite E2
+        destruct (eval_rules_pass1 c inp (s_rules sc) D m [] st Hwr) as [k2 [ok [reps [E2 [Hok _]]]]]; rewrite E2
       end.
       destruct ok.
       * rewrite (Hok eq_refl). unfold ret at 1. unfold flush. rewrite Hcb. unfold bindM, get_pend, clear_pend.
